@@ -199,7 +199,13 @@ class ExprBuilder:
                     f = proj[i + 1]
                     fname = f[2] if f[2] is not None else str(f[1])
                     if e[0] == "call" and e[4] == "std::ops::Try::branch" and vname == "Continue":
-                        e = ("try", e[2][0])
+                        inner = e[2][0]
+                        if inner[0] == "call" and len(inner) > 5:
+                            inner = inner[5]         # accepted value of a read-through helper
+                        if inner[0] == "agg" and (inner[1].endswith("::Ok") or inner[1].endswith("::Some")) and len(inner[2]) == 1:
+                            e = inner[2][0]          # `Ok(v)?`
+                        else:
+                            e = ("try", inner)
                     elif e[0] == "call" and e[4] == "std::ops::Try::branch" and vname == "Break":
                         e = ("residual", e[2][0])
                     else:
@@ -311,7 +317,59 @@ class ExprBuilder:
                     return args[0]
                 return ("conv", args[0], full)
             return args[0]
+        # a private helper that did not exist on the reviewed tree (extract-function refactoring) whose result is one
+        # loop- and merge-free term: read through it (the term is the caller's own expression, moved)
+        did = c.local_did
+        if did is not None and did in getattr(self.prog, "unknown_dids", ()):
+            term, filtered = helper_return_term(self.prog, self.prog.by_did.get(did))
+            if term is not None:
+                term = subst(term, {i + 1: a for i, a in enumerate(args)})
+                if not filtered:
+                    return term
+                # the helper also refuses: its accepted value is only meaningful under the caller's `?`
+                return ("call", best, args, c.bestfull, path, term)
         return ("call", best, args, c.bestfull, path)
+
+
+_HELPER_TERMS = {}
+
+
+def helper_return_term(prog, cf):
+    if cf is None or cf.body is None:
+        return None, False
+    k = (id(prog), cf.did)
+    if k not in _HELPER_TERMS:
+        _HELPER_TERMS[k] = (None, False)             # recursion guard
+        term = None
+        filtered = False
+        eb = ExprBuilder(prog, cf)
+        cands = []
+        for (bi, si, kind) in cf.body.defs.get(0, []):
+            if kind == "partial":
+                cands = None
+                break
+            try:
+                if si == "term":
+                    t = cf.body.blocks[bi].term
+                    if t.callee.path == "std::ops::FromResidual::from_residual":
+                        filtered = True              # a refusal of the helper (attributed to the caller by guards._virtual_edges)
+                        continue
+                    e = eb.call_expr(t)
+                else:
+                    e = eb.rvalue(cf.body.blocks[bi].stmts[si].rv)
+            except Exception:
+                cands = None
+                break
+            if e[0] == "agg" and (e[1].endswith("::Err") or e[1].endswith("::None")):
+                filtered = True                      # likewise
+                continue
+            cands.append(e)
+        if cands is not None and len(cands) == 1:
+            term = cands[0]
+            if any(isinstance(x, tuple) and x and x[0] in ("phi", "upvar", "unk") for x in walk(term)):
+                term = None                          # mentions callee-local merges: not a closed term
+        _HELPER_TERMS[k] = (term, filtered)
+    return _HELPER_TERMS[k]
 
 
 # ----------------------------------------------------------------------
